@@ -254,6 +254,7 @@ type UnitOpts struct {
 	ExtraEnsures  map[string]string // label -> spec text, added to the contract's ensures
 	SkipEnsures   map[string]bool
 	NameSuffix    string
+	Trace         bool // record call/store/alloc events for per-case obligations
 	Setup         func(ex *Exec, fr *frame, st *State)
 	AtExit        func(ex *Exec, fr *frame, g string, st *State, res []Val)
 }
@@ -306,6 +307,7 @@ func (p *Program) verifyFuncOnce(key string, opts *UnitOpts, prereg map[string]s
 			// merge the case section into a copy of the function's contract
 			m := *fc
 			m.Requires = append(append([]Clause{}, fc.Requires...), sub.Requires...)
+			m.Assumes = append(append([]Clause{}, fc.Assumes...), sub.Assumes...)
 			m.Ensures = append(append([]Clause{}, fc.Ensures...), sub.Ensures...)
 			m.Lets = append(append([]Clause{}, fc.Lets...), sub.Lets...)
 			m.Loops = map[int][]Clause{}
@@ -323,7 +325,9 @@ func (p *Program) verifyFuncOnce(key string, opts *UnitOpts, prereg map[string]s
 	}
 	ex := p.newExec(shortKey(key) + opts.NameSuffix)
 	ex.unitSuffix = opts.NameSuffix
+	ex.traceOn = opts.Trace
 	ex.enteredPrev = entered
+	ex.topContract = fc
 	ex.entered = map[int]bool{}
 	for k, srt := range prereg {
 		ex.u.keySorts[k] = srt
@@ -370,6 +374,14 @@ func (p *Program) verifyFuncOnce(key string, opts *UnitOpts, prereg map[string]s
 		}
 		u.fact(t)
 	}
+	for _, a := range fc.Assumes {
+		t, e := env.evalBool(a.Expr)
+		if e != nil {
+			return ex.unit, ex.entered, fmt.Errorf("%s assumes: %v", key, e)
+		}
+		u.fact(t)
+		u.assume("data invariant assumed by " + shortKey(key) + opts.NameSuffix + ": " + a.Src)
+	}
 	for _, r := range opts.ExtraRequires {
 		se, e := parseSpec(r)
 		if e != nil {
@@ -384,11 +396,10 @@ func (p *Program) verifyFuncOnce(key string, opts *UnitOpts, prereg map[string]s
 	if opts.Setup != nil {
 		opts.Setup(ex, fr, st)
 	}
-	// vacuity: the assumptions so far must be satisfiable
-	vac := &Obligation{Name: shortFn(fn) + opts.NameSuffix + "#vacuity:requires", Kind: "vacuity", Guard: "true", Goal: "false", NDecl: len(u.decls), Expect: Sat, Src: "requires are satisfiable"}
-	ex.unit.Obls = append(ex.unit.Obls, vac)
-
+	ex.setupEnd = len(u.decls)
+	ex.curLoopFrom = -1
 	g, s, res := ex.execBody(fr, st, "true")
+	ex.curLoopFrom = -1
 	post := ex.specEnv(fr, s, nil)
 	ex.bindResults(post, fn.Signature, tupleOf(res, fn.Signature))
 	for k, v := range fr.params {
@@ -599,7 +610,7 @@ func (u *Unit) symbolsOf(line string) []string {
 // slice keeps the declarations and the facts relevant to the goal: a fact is relevant if it
 // mentions no array-sorted symbol at all, or an array-sorted symbol already relevant; a relevant
 // fact makes all its symbols relevant. Dropping facts only weakens the hypotheses (sound).
-func (u *Unit) slice(o *Obligation) []bool {
+func (u *Unit) slice(o *Obligation, loopLocal bool) []bool {
 	decls := u.U.decls[:o.NDecl]
 	keep := make([]bool, len(decls))
 	rel := map[string]bool{}
@@ -641,6 +652,9 @@ func (u *Unit) slice(o *Obligation) []bool {
 		case combo(d):
 			// kept only through defBody when its symbol becomes relevant
 		case strings.HasPrefix(d, "(assert "):
+			if loopLocal && i >= o.SetupEnd && i < o.LoopFrom {
+				continue // facts about the state before the loop: the invariant summarises them
+			}
 			fi := factInfo{idx: i, syms: u.symbolsOf(d)}
 			for _, s := range fi.syms {
 				if isArr(s) {
@@ -698,7 +712,7 @@ func (u *Unit) slice(o *Obligation) []bool {
 }
 
 // query renders the obligation; dialect "z3" uses lambda-defined arrays where available.
-func (u *Unit) query(o *Obligation, withModel bool, dialect string) string {
+func (u *Unit) query(o *Obligation, withModel bool, dialect string, loopLocal bool) string {
 	u.mu.Lock()
 	defer u.mu.Unlock()
 	var b strings.Builder
@@ -707,7 +721,7 @@ func (u *Unit) query(o *Obligation, withModel bool, dialect string) string {
 		b.WriteString("; " + strings.ReplaceAll(o.Src, "\n", " ") + "\n")
 	}
 	b.WriteString(u.U.prelude())
-	keep := u.slice(o)
+	keep := u.slice(o, loopLocal)
 	for i, d := range u.U.decls[:o.NDecl] {
 		if !keep[i] {
 			continue
@@ -750,20 +764,29 @@ func runObligations(units []*Unit, ro RunOpts) []*OblResult {
 		i int
 	}
 	var jobs []job
+	seenName := map[string]int{}
 	for _, u := range units {
 		for _, o := range u.Obls {
+			// obligation names are file names and lock-file keys: keep them unique
+			seenName[o.Name]++
+			if n := seenName[o.Name]; n > 1 {
+				o.Name = fmt.Sprintf("%s~%d", o.Name, n)
+			}
 			jobs = append(jobs, job{u, o, len(jobs)})
 		}
 	}
 	results := make([]*OblResult, len(jobs))
 	var wg sync.WaitGroup
-	sem := make(chan struct{}, ro.Parallel)
+	// CPU slots: stage 1 of an obligation runs one solver process, stage 2 races the remaining ones
+	capacity := ro.Parallel * 4
+	slots := newWeighted(capacity)
+	inflight := make(chan struct{}, capacity*2)
 	for _, j := range jobs {
 		wg.Add(1)
-		sem <- struct{}{}
+		inflight <- struct{}{}
 		go func(j job) {
 			defer wg.Done()
-			defer func() { <-sem }()
+			defer func() { <-inflight }()
 			r := &OblResult{Obl: j.o, Unit: j.u}
 			results[j.i] = r
 			// structural obligations with literal goals need no solver
@@ -777,39 +800,113 @@ func runObligations(units []*Unit, ro RunOpts) []*OblResult {
 			}
 			file := filepath.Join(ro.OutDir, sanitize(j.o.Name)+".smt2")
 			r.File = file
-			if err := writeFile(file, j.u.query(j.o, true, "generic")); err != nil {
-				r.Note = err.Error()
-				return
-			}
-			zfile := strings.TrimSuffix(file, ".smt2") + ".z3.smt2"
-			if len(j.u.U.altZ3) > 0 {
-				if err := writeFile(zfile, j.u.query(j.o, true, "z3")); err != nil {
+			emit := func(file string, loopLocal bool) (string, string, bool) {
+				if err := writeFile(file, j.u.query(j.o, true, "generic", loopLocal)); err != nil {
 					r.Note = err.Error()
+					return "", "", false
+				}
+				zfile := strings.TrimSuffix(file, ".smt2") + ".z3.smt2"
+				if len(j.u.U.altZ3) > 0 {
+					if err := writeFile(zfile, j.u.query(j.o, true, "z3", loopLocal)); err != nil {
+						r.Note = err.Error()
+						return "", "", false
+					}
+				} else {
+					zfile = file
+				}
+				return file, zfile, true
+			}
+			// staged discharge: one fast solver first, then the race of all back ends
+			staged := func(f, z string, to int) SolverResult {
+				slots.acquire(1)
+				q := to
+				if q > 2 {
+					q = 2
+				}
+				first := runSolvers(f, z, q, ro.Seed, []string{"z3-new"})
+				slots.release(1)
+				if first.Verdict != Unknown || to <= q {
+					return first
+				}
+				slots.acquire(4)
+				rest := runSolvers(f, z, to, ro.Seed, nil)
+				slots.release(4)
+				rest.Ms += first.Ms
+				return rest
+			}
+			if j.o.Expect == Sat {
+				// canaries: a short run of one solver is enough; unsat is the only bad answer
+				f, z, ok := emit(file, false)
+				if !ok {
 					return
 				}
-			} else {
-				zfile = file
+				slots.acquire(1)
+				r.Res = runSolvers(f, z, 2, ro.Seed, []string{"z3-new"})
+				slots.release(1)
+				r.OK = r.Res.Verdict != Unsat
+				return
 			}
-			to := ro.Timeout
-			if j.o.Expect == Sat {
-				// canaries: a short run is enough; unsat is the only bad answer
-				if to > 3 {
-					to = 3
+			if j.o.LoopFrom >= 0 {
+				// first attempt: the loop body from its havoced state only (dropping facts is sound)
+				lf, lz, ok := emit(strings.TrimSuffix(file, ".smt2")+".loop.smt2", true)
+				if ok {
+					lt := ro.Timeout / 2
+					if lt < 3 {
+						lt = 3
+					}
+					lr := staged(lf, lz, lt)
+					if lr.Verdict == Unsat {
+						r.Res = lr
+						r.File = lf
+						r.OK = true
+						return
+					}
 				}
 			}
-			r.Res = runSolvers(file, zfile, to, ro.Seed, nil)
-			if j.o.Expect == Sat {
-				r.OK = r.Res.Verdict != Unsat
-			} else {
-				r.OK = r.Res.Verdict == Unsat
+			_, zfile, ok := emit(file, false)
+			if !ok {
+				return
 			}
-			if ro.CrossAll && j.o.Expect == Unsat {
+			r.Res = staged(file, zfile, ro.Timeout)
+			r.OK = r.Res.Verdict == Unsat
+			if ro.CrossAll {
+				slots.acquire(4)
 				r.AllRuns = runSolversAll(file, zfile, ro.Timeout, ro.Seed)
+				slots.release(4)
 			}
 		}(j)
 	}
 	wg.Wait()
 	return results
+}
+
+// weighted is a counting semaphore with multi-unit acquire.
+type weighted struct {
+	mu   sync.Mutex
+	cond *sync.Cond
+	free int
+}
+
+func newWeighted(n int) *weighted {
+	w := &weighted{free: n}
+	w.cond = sync.NewCond(&w.mu)
+	return w
+}
+
+func (w *weighted) acquire(n int) {
+	w.mu.Lock()
+	for w.free < n {
+		w.cond.Wait()
+	}
+	w.free -= n
+	w.mu.Unlock()
+}
+
+func (w *weighted) release(n int) {
+	w.mu.Lock()
+	w.free += n
+	w.mu.Unlock()
+	w.cond.Broadcast()
 }
 
 func sanitize(s string) string {
